@@ -83,6 +83,10 @@ CHECKS = {
    technique="bounded-exhaustive enumeration of configurations (every prefix length x server/reserved address placement; policy trees over a 16-address universe) through the real YAML loader; pools observed by build_default_config and by draining the real handle_pkt with fresh clients until exhaustion, compared with an independent reference of the documented sets",
    text="For the addresses form the computed pool must equal hosts - server - reserved for every prefix length; for policy trees every (tree, hardware address) pool is drained through the real handler and the set of addresses handed out must equal the documented pool (own addresses minus everything added by sub-policies, first matching sibling, condition-less policies apply iff a sub-policy does).",
    note="Don't-care: overlapping pools of sibling policies, the server's own address inside an explicit pool. Prefixes shorter than /10 are not materialised (resource use)."),
+ "C19": dict(level="exploration", engine="E-ENUM", design="5/C19",
+   technique="bounded-exhaustive structural and byte-level enumeration of configuration texts derived from the shipped examples and a full-grammar skeleton, through the real loader (panic hook, overflow checks, watchdog); every accepted text is then served by the real handlers (DHCP, ACL, RA builder/serialiser, live DNS service for route variants)",
+   text="Every node of every skeleton document is replaced by 21 wrong-type/boundary values, every scalar by 12 duration shapes and case/spelling variants, every prefix-shaped scalar by every prefix length x 6 address forms, every entry removed or its key misspelt; every offset of the shipped texts is deleted or overwritten with each structural octet. The loader must return Ok or a non-empty Err; each accepted configuration is served (DISCOVER+REQUEST from 4 receiving addresses x 3 clients, 20 ACL decisions, RA per interface, one query per changed DNS route on the live service) without a panic.",
+   note="Texts implying an IPv4 pool over 2^20 addresses at load time are not loaded and pools over 2^20 are not served (memory exhaustion aborts, not claimed). A 60 s watchdog reports non-termination."),
 }
 
 NOT_YET = {
